@@ -27,6 +27,8 @@ RoIdC == "RO1"
 
 ItemN(id, owner, v) == Leaf("item", id, "x:item." \o owner \o "." \o id \o v)
 ParaN(owner, k)     == Leaf("p", None, "x:p." \o owner \o "." \o ToString(k))
+(* an item followed by character data (token "xt:": gamma writes text after the element) *)
+ItemT(id, owner, v) == Leaf("item", id, "xt:item." \o owner \o "." \o id \o v)
 
 StoryHdr(x, v) == << Leaf("storyID", x, "="),
                      Leaf("storySlug", None, "x:slug." \o x \o v),
@@ -56,13 +58,15 @@ StoryBlank == Nd("story", None, None,
 RECURSIVE ItemRun(_, _, _, _)
 ItemRun(owner, i, n, mixed) ==
   IF i > n THEN <<>>
-  ELSE (IF mixed THEN <<ParaN(owner, i)>> ELSE <<>>) \o <<ItemN(IId(i), owner, "")>>
+  ELSE (IF mixed THEN <<ParaN(owner, i), ItemT(IId(i), owner, "")>> ELSE <<ItemN(IId(i), owner, "")>>)
        \o ItemRun(owner, i+1, n, mixed)
 (* "itemfirst": the first item precedes the story's own header elements  *)
 StoryI(x, n, il) ==
   Nd("story", x, None,
      IF il = "itemfirst" /\ n >= 1
      THEN <<ItemN(IId(1), x, "")>> \o StoryHdr(x, "") \o ItemRun(x, 2, n, FALSE)
+     ELSE IF il = "dup" /\ n >= 2              \* the last item repeats the first one's id
+     THEN StoryHdr(x, "") \o ItemRun(x, 1, n - 1, FALSE) \o <<ItemN(IId(1), x, "'")>>
      ELSE StoryHdr(x, "") \o ItemRun(x, 1, n, il = "mixed")
             \o (IF il = "mixed" THEN <<ParaN(x, n+1)>> ELSE <<>>))
 
@@ -75,22 +79,26 @@ Trailing == Leaf("mosExternalMetadata", "sch.ro", "x:trailing")
 (*          "nt1" / "nt2": the first / second story has no timing metadata  *)
 (*          "blank": the last story's storyID is blank                      *)
 (*          "attr": every <story> element carries attributes                *)
+(*          "dup": the last story carries the same storyID as the first     *)
 RECURSIVE StoryRun(_, _, _)
 StoryRun(i, n, lay) ==
   IF i > n THEN <<>>
   ELSE << IF (lay = "nt1" /\ i = 1) \/ (lay = "nt2" /\ i = 2) THEN StoryNT(SId(i))
           ELSE IF lay = "blank" /\ i = n THEN StoryBlank
           ELSE IF lay = "attr" THEN StoryAttr(SId(i))
+          ELSE IF lay = "dup" /\ i = n /\ n >= 2 THEN StoryN(SId(1), "'")      \* the last story repeats the first one's id
           ELSE StoryN(SId(i), "") >>
        \o (IF lay \in {"between", "both"} /\ i = 1 THEN <<Between>> ELSE <<>>)
        \o StoryRun(i+1, n, lay)
 
 Root == << Leaf("mosID", None, "x:mosID"), Leaf("ncsID", None, "x:ncsID"),
            Leaf("messageID", "1000", "="), Leaf("roCreate", None, None) >>
+(* the <roCreate> element carries attributes of its own                    *)
+RootAttr == [Root EXCEPT ![4] = Leaf("roCreate", None, "a:create")]
 
 (* story-level shape: n stories, layout                                   *)
 ShapeS(n, lay) ==
-  [root |-> Root,
+  [root |-> IF lay = "attr" THEN RootAttr ELSE Root,
    kids |-> (IF lay = "leadlast" THEN <<>> ELSE Lead)       \* "leadlast": the stories come first, roID & co after them
                  \o (IF n = 0 /\ lay \in {"between", "both"} THEN <<Between>> ELSE <<>>)
                  \o StoryRun(1, n, lay)
@@ -104,7 +112,7 @@ ShapeI(n, il) ==
 
 (* metadata shape: which replaceable metadata the running order holds     *)
 ShapeM(v) ==
-  [root |-> Root,
+  [root |-> IF v = "extAB" THEN RootAttr ELSE Root,
    kids |-> Lead
             \o (IF v \in {"extA", "extAB"} THEN <<Leaf("mosExternalMetadata", "sch.A", "x:extA")>> ELSE <<>>)
             \o <<StoryN("S1", "")>>
@@ -138,6 +146,7 @@ RealIds(K) == IdSet(K, "story") \ {None}
 CarriedStories(K) ==
   { FreshStories(K, k) : k \in 1..MaxCarried }
   \cup { <<StoryNT(FreshFrom(FreshPoolS, IdSet(K, "story"))[1])>> }                  \* a story without timing
+  \cup { <<StoryAttr(FreshFrom(FreshPoolS, IdSet(K, "story"))[1])>> }                \* attributes; followed by text
   \cup { FreshStories(K, 1) \o <<StoryBare(x, "'")>> : x \in RealIds(K) }             \* a slug-less duplicate, 2nd
   \cup { <<StoryN(FreshFrom(FreshPoolS, IdSet(K, "story"))[1], ""),                   \* the same new id twice
            StoryBare(FreshFrom(FreshPoolS, IdSet(K, "story"))[1], "'")>> }
@@ -149,7 +158,8 @@ CarriedStories(K) ==
   \cup { FreshStories(K, 1) \o <<StoryN(x, "'")>> \o SubSeq(FreshStories(K, k+1), 2, k+1) :
             x \in RealIds(K), k \in 0..(MaxCarried-2) }
 FreshItems(S, k) ==
-  LET f == FreshFrom(FreshPoolI, IdSet(S, "item")) IN [i \in 1..k |-> ItemN(f[i], "msg", "")]
+  LET f == FreshFrom(FreshPoolI, IdSet(S, "item"))
+  IN [i \in 1..k |-> IF i = 1 THEN ItemT(f[i], "msg", "") ELSE ItemN(f[i], "msg", "")]     \* the first one is followed by text
 CarriedItems(S) == { FreshItems(S, k) : k \in 1..MaxCarried }
 
 SendMsgsAll(K) ==
@@ -214,6 +224,7 @@ ItemMsgs(cls, K, sid) ==
 
 MetaCarried ==
   LET opts == { Leaf("roSlug", None, "x:newSlug"),
+                Leaf("roSlug", None, "x:newSlug2"),              \* the same element twice in one message, with other content
                 Leaf("roEdStart", None, "ed:1"),
                 Leaf("roChannel", None, "x:newChannel"),
                 Leaf("mosExternalMetadata", "sch.A", "x:newExtA"),
